@@ -67,8 +67,13 @@ def gen_ops(rnd, n, mode=None):
         else:
             k = kg.key()
         if r < 0.55:
-            v = bytes([rnd.randrange(1, 256)]) * rnd.choice([1, 2, 3, 31, 32, 33])
-            ops.append(["set", k.hex(), v.hex()])
+            if rnd.random() < 0.12:
+                # a value that is itself the hash of a node in the same database (the trie's
+                # current root, or a current interior node) - like a storage root kept as a value
+                vx = rnd.choice(["@root", "@node"])
+            else:
+                vx = (bytes([rnd.randrange(1, 256)]) * rnd.choice([1, 2, 3, 31, 32, 33])).hex()
+            ops.append(["set", k.hex(), vx])
             if not any(prefix_related(k, s) for s in keys):
                 keys.add(k)
         elif r < 0.75:
@@ -92,6 +97,23 @@ def gen_ops(rnd, n, mode=None):
     return {"ops": ops, "mode": kg.mode}
 
 
+def resolve_value(trie, spec, ctx=None):
+    """hex string, or "@root" / "@node": the hash of a node currently stored in the trie's own
+    database (32 bytes that are ALSO a database key)"""
+    if not spec.startswith("@"):
+        return unhx(spec)
+    from trie.constants import BLANK_HASH
+
+    if trie.root_hash == BLANK_HASH:
+        return b"\x07" * 32
+    if ctx is not None:
+        ctx.count("value_is_node_hash")
+    if spec == "@root":
+        return trie.root_hash
+    raw = trie.db.raw() if hasattr(trie.db, "raw") else trie.db
+    return min(raw)  # deterministic choice of some stored node's hash
+
+
 def apply(trie, model, op, ctx=None):
     """Apply one op to the real trie and to the model, enforcing the refusal rule and
     'a call that raises leaves root and contents unchanged' (root part; contents are checked
@@ -100,7 +122,7 @@ def apply(trie, model, op, ctx=None):
     k = unhx(op[1])
     before_root = trie.root_hash
     if kind == "set":
-        v = unhx(op[2])
+        v = resolve_value(trie, op[2], ctx)
         conflict = [s for s in model if prefix_related(k, s)]
         r = cut(trie.set, k, v, expect=(NodeOverrideError,))
         if isinstance(r, Raised):
